@@ -30,6 +30,9 @@ pub(crate) const SPIN_CONSOLE_WAIT_RECEIVE: u32 = 2;
 pub(crate) const SPIN_SOUND_PCM_XFER: u32 = 3;
 /// Busy-wait in `VsockConnectionManager::wait_for_event`.
 pub(crate) const SPIN_VSOCK_WAIT_EVENT: u32 = 4;
+/// `VirtQueue::can_pop` found the used ring empty: one iteration of whatever loop polls it (the
+/// caller's or a driver's own).
+pub(crate) const SPIN_POLL_EMPTY: u32 = 5;
 
 /// Reports that a store to device-visible queue memory has just been performed.
 #[inline(always)]
